@@ -310,6 +310,7 @@ class SolverActor:
         self.op_no = 0
         self.cur_op = None
         self.cb_depth = 0
+        self.shadow = False
         self.active = False
         self.solutions = []        # snapshots of Solutions handed to the user by Solve / results
         # trial tracking
@@ -468,6 +469,12 @@ class SolverActor:
             ev.SetBounds(np.array(self.lower, dtype=np.double), np.array(self.upper, dtype=np.double))
             self.world.log("evq", self.aid, "setbounds_same")
             return None
+        if q == "setbounds_inner":
+            # the user narrows the box of THIS solver's evolvent (a public call; whatever it does to this solver's own
+            # search, it must not reach any other solver - not even one built on the same Problem object)
+            ev.SetBounds(np.array(op["lower"], dtype=np.double), np.array(op["upper"], dtype=np.double))
+            self.world.log("evq", self.aid, "setbounds_inner")
+            return None
         if q == "image":
             r = ev.GetImage(float(op["x"]))
             self.world.log("evq", self.aid, "image %s -> %s" % (fhex(op["x"]), vhex(r)))
@@ -506,7 +513,7 @@ class SolverActor:
             y = as_floats(point.floatVariables)
         except Exception as e:
             raise HarnessError("objective called with unreadable point: %r" % (e,))
-        if self.cb_depth > 0:
+        if self.cb_depth > 0 or self.shadow:
             phase = "probe"
         elif self.cur_op == "iterate":
             phase = "global"
@@ -592,6 +599,8 @@ class SolverActor:
     # -- listener seams
     def on_bracket(self, name, opening, args):
         w = self.world
+        if self.shadow:
+            return       # the kept original of a fork is running: not this actor's notifications
         if opening:
             self.cb_depth = 1
             self.cb_count[name] = self.cb_count.get(name, 0) + 1
@@ -1085,8 +1094,20 @@ class World:
             elif kind == "clone":
                 # checkpoint / rollback: the user continues with a deep copy of the solver
                 import copy as _copy
-                a.solver = _copy.deepcopy(a.solver)
+                orig = a.solver
+                a.solver = _copy.deepcopy(orig)
                 a.parameters = a.solver.parameters
+                if op.get("keep"):
+                    # a fork: the original is not thrown away but carries on by itself (its evaluations are not this
+                    # actor's trials); the copy the actor continues with is a separate Solver and must not notice
+                    self.kept = getattr(self, "kept", [])
+                    self.kept.append(orig)
+                    a.shadow = True
+                    try:
+                        orig.DoGlobalIteration(int(op["keep"]))
+                    finally:
+                        a.shadow = False
+                    self.fired["original_continues_beside_its_deep_copy"] += 1
                 a.known_items = {}
                 for it in a.walk():
                     a.known_items[id(it)] = it
